@@ -112,7 +112,10 @@ def run_c04(ck, fb, fbd):
     sg = [f for f in fb.fns.values() if f.cls == "OpenVolumeMesh::StatusAttrib" and f.name == "garbage_collection" and f.has_cfg and len(f.d["params"]) == 5]
     ck.floor("status_gc_instantiations", len(sg), 1)
     for f in sg[:3]:
-        need_names(f, ["nv", "nhe", "nhf", "nc", "_preserveManifoldness", "new_vh", "new_heh", "new_hfh", "new_ch"], fb, "C04.status")
+        bools = [p_["n"] for p_ in f.d["params"] if p_["t"] == "bool"]
+        if len(bools) != 1:
+            raise AnalysisBroken("%s: StatusAttrib::garbage_collection: the preserve-manifoldness parameter (bool) is not unique" % f.where)
+        pman = bools[0]
         dels = [(b, i, x) for b, i, x in f.nodes(("call",)) if x.get("pn", "") in (TK + "::delete_edge", TK + "::delete_face", TK + "::delete_cell", TK + "::delete_vertex") and b in f.reach()]
         bu = [(b, i) for b, i, x in f.nodes(("call",)) if x.get("pn", "").endswith("::enable_bottom_up_incidences")]
         cg = [(b, i) for b, i, x in f.nodes(("call",)) if x.get("u") == gc.id]
@@ -121,7 +124,7 @@ def run_c04(ck, fb, fbd):
         for b, i, x in dels:
             at = [(estr(cn), pol) for cn, pol, e in f.facts(b)]
             status = any("deleted()" in s and pol is True for s, pol in at)
-            manifold = any("_preserveManifoldness" == s and pol is True for s, pol in at)
+            manifold = any(pman == s and pol is True for s, pol in at)
             if status and not x["pn"].endswith("delete_vertex"):
                 n_status += 1
                 if not any("is_deleted(" in s and pol is False for s, pol in at):
@@ -138,14 +141,14 @@ def run_c04(ck, fb, fbd):
         nrem = 0
         for b, i, x in f.tops():
             a = as_assign(x)
-            if a and isinstance(unwrap(a[0]), dict) and unwrap(a[0]).get("k") == "un" and unwrap(a[0]).get("op") == "*" or (a and "new_" in estr(a[1]) and "[" in estr(a[1]) and estr(a[0]).startswith("*")):
+            if a and isinstance(unwrap(a[0]), dict) and (unwrap(a[0]).get("k") == "un" and unwrap(a[0]).get("op") == "*" or estr(a[0]).startswith("*")) and "[" in estr(a[1]):
                 nrem += 1
                 if not any("is_valid()" in estr(cn) and pol is True for cn, pol, e in f.facts(b)):
                     bad.append("handle remap without is_valid() guard at line %s" % x.get("ln"))
         if nrem < 4:
             bad.append("remap statements not recognised (%d)" % nrem)
         # maps sized (nv.. captured) before collect_garbage
-        sizes = [(b, i) for b, i, d in f.nodes(("decl",)) for v in d["vars"] if v["n"] in ("nv", "nhe", "nhf", "nc")]
+        sizes = [(b, i) for b, i, d in f.nodes(("decl",)) for v in d["vars"] if v.get("init") is not None and estr(f.resolve(v["init"])).replace("this.", "").split(".")[-1] in ("n_vertices()", "n_halfedges()", "n_halffaces()", "n_cells()")]
         if len(sizes) < 4 or not all(any(f.dominates(s, cgp) for cgp in cg) for s in sizes):
             bad.append("entity counts for the remap are not taken before collect_garbage()")
         (ck.ok if not bad else lambda r, w, t: ck.violate(r, w, t, "C04.status"))("C04.status", f.where, "StatusAttrib::garbage_collection: %s" % ("all clauses hold" if not bad else "; ".join(bad)))
@@ -217,67 +220,114 @@ def run_c09(ck, fb, fbd):
                 ok = bool(un) and all(not g.dominates((b, i), e["pos"]) and (e["pos"][0] != b or e["pos"][1] < i) for e in un)
                 (ck.ok if ok else lambda r, w, t: ck.violate(r, w, t, "C09.trigger:%s:after" % name))("C09.trigger", g.loc(n), "%s reorders only after the victim has been removed from %s" % (name, cache))
     # walk
-    need_names(ro, ["new_halffaces", "incident_hfs", "cur_hf", "cur_heh", "heh"], fb, "C09.walk")
+    # roles instead of names: the rule is written against the aliases below, which are bound to the function's locals by role
+    from .canon import Canon
+    rcn = Canon(ro)
+    HE = "halfedge_handle(P0, 0)"
+    STORED = "incident_hfs_per_he_[%s]" % HE
+    newv = [vid for vid, ms in rcn.mods.items() if any(m_[3].get("pn", "").split("::")[-1] == "push_back" for m_ in ms) and "std::vector<OpenVolumeMesh::HFH" in rcn.decl[vid][0]["t"]]
+    curhe = [vid for vid in rcn.decl if rcn.kind[vid] == "mut" and rcn.decl[vid][0].get("init") is not None and rcn.s(rcn.decl[vid][0]["init"]) == HE]
+    curhf = set()
+    for b_, i_, x_ in ro.nodes(("call",)):
+        if x_.get("pn", "").split("::")[-1] == "adjacent_halfface_in_cell" and x_.get("a"):
+            a0_ = unwrap(ro.resolve(x_["a"][0]))
+            if isinstance(a0_, dict) and a0_.get("k") == "var" and rcn.kind.get(a0_.get("id")) == "mut":
+                curhf.add(a0_["id"])
+    if len(newv) > 1:
+        # several scratch lists: the new list is the one that is written back to the stored one
+        wb_ = set()
+        for b_, i_, x_ in ro.tops():
+            a_ = as_assign(x_)
+            if a_ and rcn.s(a_[0]) == STORED:
+                for y_ in walk(ro.resolve(a_[1])):
+                    if isinstance(y_, dict) and y_.get("k") == "var" and y_.get("id") in newv:
+                        wb_.add(y_["id"])
+        if len(wb_) == 1:
+            newv = list(wb_)
+    if len(newv) != 1 or len(curhe) != 1 or len(curhf) != 1:
+        raise AnalysisBroken("%s: reorder_incident_halffaces: the roles (new list %d, running halfedge %d, running halfface %d) are not recognised - re-audit rule C09.walk" % (ro.where, len(newv), len(curhe), len(curhf)))
+    alias = sorted([(STORED, "incident_hfs"), (HE, "heh"), (rcn._name[newv[0]], "new_halffaces"), (rcn._name[curhe[0]], "cur_heh"), (rcn._name[list(curhf)[0]], "cur_hf")], key=lambda z: -len(z[0]))
+
+    def R(node):
+        t_ = rcn.s(node)
+        for cstr, al in alias:
+            t_ = re.sub(r"(?<![A-Za-z0-9_])%s(?![A-Za-z0-9_])" % re.escape(cstr), al, t_)
+        return t_
     loops = ro.loops()
     if len(loops) < 2:
         raise AnalysisBroken("C09: reorder_incident_halffaces: expected two walks (loops), found %d" % len(loops))
-    pushes = [(b, i, x) for b, i, x in ro.nodes(("call",)) if x.get("pn", "").split("::")[-1] == "push_back" and "new_halffaces" in estr(ro.resolve(x.get("r")))]
-    inserts = [(b, i, x) for b, i, x in ro.nodes(("call",)) if x.get("pn", "").split("::")[-1] == "insert" and "new_halffaces" in estr(ro.resolve(x.get("r")))]
+    pushes = [(b, i, x) for b, i, x in ro.nodes(("call",)) if x.get("pn", "").split("::")[-1] == "push_back" and "new_halffaces" in R(ro.resolve(x.get("r")))]
+    inserts = [(b, i, x) for b, i, x in ro.nodes(("call",)) if x.get("pn", "").split("::")[-1] == "insert" and "new_halffaces" in R(ro.resolve(x.get("r")))]
     ok = len(pushes) == 1
     (ck.ok if ok else lambda r, w, t: ck.violate(r, w, t, "C09.walk:append"))("C09.walk", ro.where, "forward walk appends each visited halfface (%d push_back on the new list)" % len(pushes))
     okp = False
     for b, i, x in inserts:
-        a = [estr(y) for y in ro.resolve(x.get("a", []))]
+        a = [R(y) for y in ro.resolve(x.get("a", []))]
         if len(a) == 2 and "begin()" in a[0] and "new_halffaces" in a[0]:
             # one element at the front, inside the backward loop
             okp = any(b in body for hdr, body, backs in loops)
         if len(a) == 3 and "begin()" in a[0] and "rbegin()" in a[1] and "rend()" in a[2]:
             okp = True
-    (ck.ok if (okp and len(inserts) == 1) else lambda r, w, t: ck.violate(r, w, t, "C09.walk:prepend"))("C09.walk", ro.where, "backward walk prepends: front insertion of each halfface (or one insertion of the reversed range); found %s" % [estr(ro.resolve(x.get("a", [])))[:70] for b, i, x in inserts])
+    (ck.ok if (okp and len(inserts) == 1) else lambda r, w, t: ck.violate(r, w, t, "C09.walk:prepend"))("C09.walk", ro.where, "backward walk prepends: front insertion of each halfface (or one insertion of the reversed range); found %s" % [R(ro.resolve(x.get("a", [])))[:70] for b, i, x in inserts])
     # abort bounds
     rets = [(b, x) for b, i, x in ro.tops() if x.get("k") == "ret" and b in ro.reach()]
-    nb = sum(1 for b, x in rets if any("new_halffaces.size()" in estr(cn) and "incident_hfs.size()" in estr(cn) and ">" in estr(cn) and pol is True for cn, pol, e in ro.facts(b)))
+    nb = sum(1 for b, x in rets if any("new_halffaces.size()" in R(cn) and "incident_hfs.size()" in R(cn) and ">" in R(cn) and pol is True for cn, pol, e in ro.facts(b)))
     (ck.ok if nb >= 2 else lambda r, w, t: ck.violate(r, w, t, "C09.walk:bound"))("C09.walk", ro.where, "both walks abort when the new list outgrows the stored one (%d bounded exits)" % nb)
     # step calls
-    seq = [(b, i, x.get("pn", "").split("::")[-1], estr(ro.resolve(x.get("a", [])))) for b, i, x in sorted(ro.nodes(("call",)), key=lambda z: (-z[0], z[1])) if x.get("pn", "").split("::")[-1] in ("adjacent_halfface_in_cell", "opposite_halfface_handle", "opposite_halfedge_handle")]
+    seq = [(b, i, x.get("pn", "").split("::")[-1], R(ro.resolve(x.get("a", [])))) for b, i, x in sorted(ro.nodes(("call",)), key=lambda z: (-z[0], z[1])) if x.get("pn", "").split("::")[-1] in ("adjacent_halfface_in_cell", "opposite_halfface_handle", "opposite_halfedge_handle")]
     adj = [s for s in seq if s[2] == "adjacent_halfface_in_cell"]
     ok = len(adj) == 2 and all("cur_hf" in s[3] and "cur_heh" in s[3] for s in adj)
     (ck.ok if ok else lambda r, w, t: ck.violate(r, w, t, "C09.walk:step"))("C09.walk", ro.where, "both walks step with adjacent_halfface_in_cell(cur_hf, cur_heh)")
     heh_sw = [s for s in seq if s[2] == "opposite_halfedge_handle" and s[3] == "heh"]
-    asg = [estr(x) for b, i, x in ro.tops() if x.get("k") in ("asg", "call") and estr(x).startswith("cur_heh =") or (as_assign(x) and estr(as_assign(x)[0]) == "cur_heh")]
+    asg = [R(x) for b, i, x in ro.tops() if x.get("k") in ("asg", "call") and R(x).startswith("cur_heh =") or (as_assign(x) and R(as_assign(x)[0]) == "cur_heh")]
     ok = any("opposite_halfedge_handle(heh)" in s for s in asg)
     (ck.ok if ok else lambda r, w, t: ck.violate(r, w, t, "C09.walk:backedge"))("C09.walk", ro.where, "the backward walk switches to the opposite halfedge (%s)" % asg)
     # write back
     tr = [x for b, i, x in ro.nodes(("call",)) if x.get("pn", "") == "std::transform"]
     ok = False
     for x in tr:
-        a = [estr(y) for y in ro.resolve(x.get("a", []))]
+        a = [R(y) for y in ro.resolve(x.get("a", []))]
         if len(a) == 4 and "rbegin()" in a[0] and "rend()" in a[1] and "opposite_halfedge_handle(heh)" in a[2] and "begin()" in a[2] and "opposite_halfface_handle" in a[3]:
             ok = True
     (ck.ok if ok else lambda r, w, t: ck.violate(r, w, t, "C09.walk:mirror"))("C09.walk", ro.where, "the opposite halfedge receives the reversed list mapped through opposite_halfface_handle")
-    wb = [(b, x) for b, i, x in ro.tops() if as_assign(x) and estr(as_assign(x)[0]) == "incident_hfs"]
-    ok = bool(wb) and all(any("new_halffaces.size()" in estr(cn) and "incident_hfs.size()" in estr(cn) and "==" in estr(cn) and pol is True for cn, pol, e in ro.facts(b)) for b, x in wb)
+    wb = [(b, x) for b, i, x in ro.tops() if as_assign(x) and R(as_assign(x)[0]) == "incident_hfs"]
+    ok = bool(wb) and all(any("new_halffaces.size()" in R(cn) and "incident_hfs.size()" in R(cn) and "==" in R(cn) and pol is True for cn, pol, e in ro.facts(b)) for b, x in wb)
     (ck.ok if ok else lambda r, w, t: ck.violate(r, w, t, "C09.walk:complete"))("C09.walk", ro.where, "the stored list is replaced only when every halfface was visited (sizes equal)")
     # adjacent_halfface_in_cell
     ad = [f for f in c.fns if f.name == "adjacent_halfface_in_cell"]
     if not ad:
         raise AnalysisBroken("anchor vanished: TopologyKernel::adjacent_halfface_in_cell")
     ad = ad[0]
-    need_names(ad, ["hfh", "idx", "heh", "hasHalfedge", "hasOppHalfedge"], fb, "C09.adjacent")
-    phf, phe = ad.d["params"][0]["n"], ad.d["params"][1]["n"]
+    acn = Canon(ad)
+    CAND = "each(cell(incident_cell(P0)).halffaces())"
+    HEc = "each(halfface(%s).halfedges())" % CAND
     cand = []
     for b, i, x in ad.tops():
         a = as_assign(x)
-        if (a and estr(a[0]) == "idx" and estr(a[1]) == "hfh") or (x.get("k") == "ret" and estr(x.get("x")) == "hfh"):
+        if (a and re.fullmatch(r"v\d+", acn.s(a[0])) and acn.s(a[1]) == CAND) or (x.get("k") == "ret" and acn.s(x.get("x")) == CAND):
             cand.append((b, x))
     if len(cand) < 2:
-        raise AnalysisBroken("C09: adjacent_halfface_in_cell: candidate sites not recognised (%d)" % len(cand))
+        raise AnalysisBroken("C09: adjacent_halfface_in_cell: candidate sites (result = a halfface of the cell of the given halfface) not recognised (%d)" % len(cand))
     for b, x in cand:
-        at = {(estr(cn), pol) for cn, pol, e in ad.facts(b)}
-        need = [("(opposite_halfedge_handle(heh) == %s)" % phe, True), ("(hfh != opposite_halfface_handle(%s))" % phf, True), ("(hfh == %s)" % phf, False)]
+        at = {(s_, p_) for s_, p_, c_ in acn.facts(b)}
+        need = [("(opposite_halfedge_handle(%s) == P1)" % HEc, True), ("(%s != opposite_halfface_handle(P0))" % CAND, True), ("(%s == P0)" % CAND, False)]
         ok = all(nd in at for nd in need)
-        (ck.ok if ok else lambda r, w, t: ck.violate(r, w, t, "C09.adjacent:%s" % estr(x)[:12]))("C09.adjacent", ad.loc(x), "'%s' happens only for a halfface containing the opposite halfedge that is neither the given halfface nor its opposite" % estr(x))
+        (ck.ok if ok else lambda r, w, t: ck.violate(r, w, t, "C09.adjacent:%s" % ("return" if x.get("k") == "ret" else "remember")))("C09.adjacent", ad.loc(x), "a halfface of the cell is %s only if it contains the opposite halfedge and is neither the given halfface nor its opposite" % ("returned" if x.get("k") == "ret" else "remembered"))
     # the legacy flip: halfedge replaced by its opposite only if the halfface contains the opposite and not the halfedge itself
-    flips = [(b, x) for b, i, x in ad.tops() if as_assign(x) and estr(as_assign(x)[0]) == phe]
-    ok = bool(flips) and all({("hasHalfedge", False), ("hasOppHalfedge", True)} <= {(estr(cn), pol) for cn, pol, e in ad.facts(b)} for b, x in flips)
+    OWN = "each(halfface(P0).halfedges())"
+    has = hasopp = None
+    for vid, ms in acn.mods.items():
+        for kind_, bb, ii, m_ in ms:
+            a_ = as_assign(m_)
+            if not a_ or acn.s(a_[1]) != "true":
+                continue
+            fs_ = {(s_, p_) for s_, p_, c_ in acn.facts(bb)}
+            if ("(%s == P1)" % OWN, True) in fs_:
+                has = acn.s(a_[0])
+            if ("(%s == opposite_halfedge_handle(P1))" % OWN, True) in fs_:
+                hasopp = acn.s(a_[0])
+    if has is None or hasopp is None:
+        raise AnalysisBroken("%s: adjacent_halfface_in_cell: the contains-halfedge / contains-opposite flags are not recognised - re-audit rule C09.adjacent" % ad.where)
+    flips = [(b, x) for b, i, x in ad.tops() if as_assign(x) and acn.s(as_assign(x)[0]) == "P1"]
+    ok = bool(flips) and all({(has, False), (hasopp, True)} <= {(s_, p_) for s_, p_, c_ in acn.facts(b)} and acn.s(as_assign(x)[1]) == "opposite_halfedge_handle(P1)" for b, x in flips)
     (ck.ok if ok else lambda r, w, t: ck.violate(r, w, t, "C09.adjacent:flip"))("C09.adjacent", ad.where, "the halfedge is flipped only when the halfface contains its opposite but not the halfedge itself")
